@@ -1523,6 +1523,62 @@ Proof.
   apply ods_grid_main; assumption.
 Qed.
 
+(* the loop over the children of table:table: whatever holds or accompanies the rows is
+   transparent — the rows come out in document order, whatever follows the end tag is not read *)
+Lemma table_loop_rows : forall (its rest : list titem) (acc : list xrow),
+  forallb item_ok its = true ->
+  table_loop (its ++ TClose k_table_table :: rest) acc = Ok (acc ++ rows_of its).
+Proof.
+  induction its as [|it its IH]; intros rest acc H.
+  - cbn [app table_loop rows_of]. change (str_eqb k_table_table k_table_table) with true.
+    cbn iota. rewrite app_nil_r. reflexivity.
+  - cbn [forallb] in H. apply andb_true_iff in H. destruct H as [H1 H2].
+    destruct it as [x|n a|n|]; cbn [app table_loop rows_of].
+    + rewrite (IH rest (acc ++ [x]) H2). rewrite <- app_assoc. reflexivity.
+    + apply IH. exact H2.
+    + cbn [item_ok] in H1. apply negb_true_iff in H1. rewrite H1. apply IH. exact H2.
+    + apply IH. exact H2.
+Qed.
+
+Theorem ods_containers_transparent : forall (its rest : list titem),
+  forallb item_ok its = true ->
+  read_table_items (its ++ TClose k_table_table :: rest) = read_xtable (rows_of its).
+Proof.
+  intros its rest H. unfold read_table_items. rewrite (table_loop_rows its rest [] H).
+  cbn [app obind]. reflexivity.
+Qed.
+
+(* two arrangements of the same rows read the same *)
+Theorem ods_containers_independent : forall (its1 its2 rest1 rest2 : list titem),
+  forallb item_ok its1 = true -> forallb item_ok its2 = true ->
+  rows_of its1 = rows_of its2 ->
+  read_table_items (its1 ++ TClose k_table_table :: rest1) =
+  read_table_items (its2 ++ TClose k_table_table :: rest2).
+Proof.
+  intros its1 its2 rest1 rest2 H1 H2 E.
+  rewrite (ods_containers_transparent its1 rest1 H1), (ods_containers_transparent its2 rest2 H2), E.
+  reflexivity.
+Qed.
+
+Theorem ods_table_items_main : forall (its rest : list titem) (rows : list (row_elem data str)),
+  forallb item_ok its = true ->
+  map_outcome read_xrow (rows_of its) = Ok rows ->
+  counts_pos rows = true -> extent_ok rows = true ->
+  read_table_items (its ++ TClose k_table_table :: rest) = Ok (ods_spec_table rows).
+Proof.
+  intros its rest rows H Hr Hp He. rewrite (ods_containers_transparent its rest H).
+  apply ods_xtable_main; assumption.
+Qed.
+
+(* an unterminated table is an error, never a loop or a panic *)
+Lemma table_loop_total : forall (its : list titem) (acc : list xrow),
+  table_loop its acc <> Panic /\ table_loop its acc <> OutOfFuel.
+Proof.
+  induction its as [|it its IH]; intros acc; cbn [table_loop]; [split; discriminate|].
+  destruct it as [x|n a|n|]; try apply IH.
+  destruct (str_eqb n k_table_table); [split; discriminate|apply IH].
+Qed.
+
 (* the limits of a LibreOffice sheet (1048576 rows, 16384 columns) are inside the guard *)
 Lemma sheet_limits_extent_ok : forall (V F : Type) (rows : list (row_elem V F)),
   total_rows rows <= 1048576 -> max_width rows <= 16384 -> extent_ok rows = true.
